@@ -1313,9 +1313,14 @@ inline void runC19(Ctx &c)
                     double helperFdErr = (numTrue - g4).norm();
                     // effect of the perturbation in decision space, measured independently through evaluate
                     double effect = (gA - gTrue).norm();
-                    bool inDomain = helperFdErr <= tol / 10;
-                    if (!inDomain)
+                    // ... and the agreement that is achievable at all between the analytic gradient of the correct functors and
+                    // the derivative of the cost (rounding of a gradient of magnitude 1e4 and more is not below an absolute 1e-5)
+                    const double analyticVsOracle = (gTrue - g4).norm();
+                    bool inDomain = helperFdErr <= tol / 10 && analyticVsOracle <= tol / 10;
+                    if (helperFdErr > tol / 10)
                         c.event("out_of_domain.helper_fd_error_above_tol_over_10");
+                    else if (!inDomain)
+                        c.event("out_of_domain.gradient_rounding_above_tol_over_10");
                     else if (variant == 0)
                     {
                         c.require("C19.correct_functors_pass", res.valid, key, "error_norm=" + jnum(res.error_norm) + " helper_fd_err=" + jnum(helperFdErr));
